@@ -622,6 +622,7 @@ func c04Engine(c *Ctx) {
 				{"malleated", func() { e.scReencoded("malleated") }},
 				{"surplus", func() { e.scReencoded("surplus") }},
 				{"payer-rewrap", func() { e.scReencoded("payer-rewrap") }},
+				{"payer-malleated", func() { e.scReencoded("payer-malleated") }},
 				{"ms-reordered", func() { e.scReencoded("ms-reordered") }},
 				{"ms-duplicated", func() { e.scReencoded("ms-duplicated") }},
 				{"ms-foreign", func() { e.scReencoded("ms-foreign") }},
@@ -830,6 +831,34 @@ func (e *c04eEnv) variant(kind string, exp uint64) c04eVariant {
 		}
 		v.sender, v.payer = keyAddr(from), keyAddr(e.payerK)
 		v.sig, v.who = "c04/replayed/payer-rewrap", "the gas payer alone (no sender key)"
+	case "payer-malleated":
+		// a reimbursement tx whose GAS PAYER signature is re-encoded as (r, n-s, v^1): nobody's key is needed, the tx hash
+		// (which covers gasPayerSigs) changes, the sender's and the payer's signed contents stay the same
+		from := e.users[rnd.Intn(len(e.users))]
+		tx := types.NewReimbursementTransaction(keyAddr(from), rc, keyAddr(e.payerK), amount, nil, params.OrdinaryTx, nodeChainID, exp, "", msg)
+		stx, err := types.MakeReimbursementTxSigner().SignTx(tx, from)
+		if err != nil {
+			panic(err)
+		}
+		stx = types.GasPayerSignatureTx(stx, new(big.Int).Set(oneGwei), 2000000)
+		ptx, err := types.MakeGasPayerSigner().SignTx(stx, e.payerK)
+		if err != nil {
+			panic(err)
+		}
+		v.t = c04eWire(ptx)
+		var ps []string
+		for i, sg := range v.t.GasPayerSigs() {
+			if i == 0 {
+				sg = malleate(sg)
+			}
+			ps = append(ps, common.ToHex(sg))
+		}
+		v.t2 = c04eTxEdit(v.t, func(m map[string]interface{}) { m["gasPayerSigs"] = ps })
+		if !bytes.Equal(v.t.Sigs()[0], v.t2.Sigs()[0]) || types.MakeGasPayerSigner().Hash(v.t) != types.MakeGasPayerSigner().Hash(v.t2) {
+			panic("payer-malleated: the sender's signature or the payer's signed content changed")
+		}
+		v.sender, v.payer = keyAddr(from), keyAddr(e.payerK)
+		v.sig, v.who, v.how = "c04/replayed/payer-malleated-signature", "anybody (no key)", "gasPayerSigs[0] re-encoded as (r, n-s, v^1)"
 	case "ms-reordered", "ms-duplicated", "ms-foreign", "ms-subset":
 		acct := e.ms2
 		keys := []*ecdsa.PrivateKey{e.sgA, e.sgB}
